@@ -49,7 +49,7 @@ COMPONENTS = {
     "real": ["ExternalOptimizer.start/_handle_request", "_PluginOptimizer.run/_request/_callback", "_JSONPipeCommunicator", "EnsembleOptimizer", "SciPy plug-in + scipy.optimize in the child (45%)", "config dump -> JSON -> re-validation"],
     "stub": ["SimKernel (FIFOs, selector, process table, signals, clock, scheduler)", "sim/scripted optimizer in the child (55%)", "SimEvaluator"],
 }
-PROBES = ["delimiter_straddles_boundary", "kill_right_after_message", "evaluator_raised_with_dead_child", "real_backend_equal_within_rounding", "equality_compared", "kill_child", "kill_while_parent_evaluating", "child_raises", "child_exits_nonzero", "evaluator_raises",
+PROBES = ["explicit_start_point", "delimiter_straddles_boundary", "kill_right_after_message", "evaluator_raised_with_dead_child", "equality_compared", "kill_child", "kill_while_parent_evaluating", "child_raises", "child_exits_nonzero", "evaluator_raises",
           "evaluator_aborts", "max_functions", "stall", "spawn_fails", "small_pipe", "short_write", "large_message_runs",
           "messages_exchanged", "child_dead_checked", "real_scipy_child", "simulated_seconds"]
 REAL = ["slsqp", "l-bfgs-b", "cobyla", "nelder-mead", "differential_evolution"]
@@ -99,6 +99,15 @@ def _group_scenario(gseed: int, large: bool) -> dict:
         if backend == "scripted":
             cfg["optimizer"]["options"]["allow_nan"] = True
         scn["faults"].append({"kind": "nan", "eval": rng.randrange(0, 3), "real": None, "pert": None, "col": None})
+    if not large and rng.random() < 0.35:
+        # the step is started from an explicit point (a restart), not from the configured initial values
+        nvv = len(scn["world"]["var_ids"])
+        lb = cfg["variables"].get("lower_bounds", [-gen.INF] * nvv)
+        ub = cfg["variables"].get("upper_bounds", [gen.INF] * nvv)
+        scn["plan"]["steps"][0]["variables"] = [float(v) for v in gen.gen_point_inside(rng, lb, ub)]
+        if backend == "scripted":
+            cfg["optimizer"]["options"]["script"][0]["pts"][0] = -1
+        scn["explicit_start"] = True
     scn["backend"] = backend
     scn["large"] = large
     scn["kseed"] = rng.getrandbits(32)
@@ -359,6 +368,8 @@ def execute(scn: dict) -> dict:
             inproc = harness.run_scenario(copy.deepcopy(fs))
             da, db = harness.trace_digest(inproc), (harness.trace_digest(ctx) if ctx else "none")
             probe("equality_compared")
+            if scn.get("explicit_start"):
+                probe("explicit_start_point")
             differs = da != db
             if differs and backend != "scripted" and ctx is not None:
                 # SciPy's algorithms are not bit-reproducible between two call contexts (BLAS results depend on
